@@ -30,13 +30,35 @@ type hist struct {
 	nf     int
 	newest uint16 // newest source seqno seen so far
 	have   bool
+	// how far each withheld / forwarded packet lies behind newest, NOT reduced
+	// mod 2^16: histories may span more than half the number circle (K=4 jumps
+	// of 8192 do), where the mod-2^16 order of two numbers no longer says
+	// which packet came first
+	wOff, fOff [maxOps]uint32
+}
+
+// rel: position of s relative to newest (s is within the 8192 window)
+func (h *hist) rel(s uint16) int32 { return int32(int16(s - h.newest)) }
+
+// advance: newest moves forward to s
+func (h *hist) advance(s uint16) {
+	if h.have {
+		d := uint32(uint16(s - h.newest))
+		for j := 0; j < h.nw; j++ {
+			h.wOff[j] += d
+		}
+		for j := 0; j < h.nf; j++ {
+			h.fOff[j] += d
+		}
+	}
+	h.newest, h.have = s, true
 }
 
 // withheldBefore counts the withheld packets that precede s.
 func (h *hist) withheldBefore(s uint16) uint16 {
 	var n uint16
 	for j := 0; j < h.nw; j++ {
-		n += v.IteU16(before(h.w[j], s), 1, 0)
+		n += v.IteU16(int32(h.wOff[j])+h.rel(s) > 0, 1, 0)
 	}
 	return n
 }
@@ -44,7 +66,7 @@ func (h *hist) withheldBefore(s uint16) uint16 {
 func (h *hist) isWithheld(s uint16) bool {
 	r := false
 	for j := 0; j < h.nw; j++ {
-		r = v.Or(r, h.w[j] == s)
+		r = v.Or(r, v.And(h.w[j] == s, int32(h.wOff[j])+h.rel(s) == 0))
 	}
 	return r
 }
@@ -64,9 +86,10 @@ func (h *hist) step(m *Map, i int, wantDrop bool, fixed bool, sfix uint16) {
 	if wantDrop {
 		if m.Drop(s, p) {
 			v.Assert(inOrder, "only an in-order packet is ever withheld")
+			h.advance(s)
 			h.w[h.nw] = s
+			h.wOff[h.nw] = 0
 			h.nw++
-			h.newest, h.have = s, true
 			v.Reach("withheld")
 			return
 		}
@@ -83,7 +106,8 @@ func (h *hist) step(m *Map, i int, wantDrop bool, fixed bool, sfix uint16) {
 	for j := 0; j < h.nf; j++ {
 		dup = v.And(dup, v.Implies(h.fs[j] == s, h.fo[j] == out))
 		uniq = v.And(uniq, v.Implies(h.fs[j] != s, h.fo[j] != out))
-		ord = v.And(ord, v.Implies(before(h.fs[j], s), before(h.fo[j], out)))
+		dist := int32(h.fOff[j]) + h.rel(s) // how far s lies after forwarded packet j (unreduced)
+		ord = v.And(ord, v.Implies(v.And(dist > 0, dist < 0x4000), before(h.fo[j], out)))
 	}
 	v.Assert(dup, "a duplicate/late copy gets the number of the first copy")
 	if v.Param("full") == 1 {
@@ -92,11 +116,12 @@ func (h *hist) step(m *Map, i int, wantDrop bool, fixed bool, sfix uint16) {
 		v.Assert(uniq, "two different forwarded packets never share a number")
 		v.Assert(ord, "source order is preserved")
 	}
-	h.fs[h.nf], h.fo[h.nf] = s, out
-	h.nf++
 	if inOrder {
-		h.newest, h.have = s, true
+		h.advance(s)
 	}
+	h.fs[h.nf], h.fo[h.nf] = s, out
+	h.fOff[h.nf] = uint32(-h.rel(s))
+	h.nf++
 	v.Reach("forwarded")
 }
 
@@ -232,5 +257,28 @@ func H_C01_WrappedOffset() {
 	v.Assert(v.Implies(okd0, od0 == o0), "a duplicate keeps the number of the first copy")
 	okr, r, _ := m.Reverse(s + 1)
 	v.Assert(v.Implies(okr, r == s+2), "a NACK for a forwarded number names the packet that was sent under it")
+	v.Reach("end")
+}
+
+// H_C01_HalfCircle: a history that spans more than half the number circle in
+// a few jumps of (almost) 8192: one packet withheld at base+1, then in-order
+// arrivals at base+0x1fff, +0x3fff, +0x6000, +0x8001.  The last one lies
+// exactly 0x8000 after the withheld packet, where the mod-2^16 comparison of
+// the two numbers no longer says which came first; it must still be
+// numbered source - 1.  (The first version of this specification compared
+// numbers mod 2^16 and raised a false alarm here at K=4: DESIGN S.3.)
+func H_C01_HalfCircle() {
+	var m Map
+	var h hist
+	base := v.U16("base")
+	h.step(&m, 0, false, true, base)
+	h.step(&m, 1, true, true, base+1)
+	h.step(&m, 2, false, true, base+2)
+	h.step(&m, 3, true, true, base+0x1fff)
+	h.step(&m, 4, false, true, base+0x3fff)
+	h.step(&m, 5, false, true, base+0x6000)
+	h.step(&m, 6, true, true, base+0x8001)
+	ok, out, _ := m.Map(base+0x8001, 0)
+	v.Assert(ok && out == base+0x8000, "a packet half a circle after the withheld one is still numbered source - 1")
 	v.Reach("end")
 }
